@@ -31,7 +31,7 @@ func init() {
 			}
 			cfgs := layoutConfigs(tier, hands, []pt.TableBlindState{blindStd()})
 			for _, hc := range cfgs {
-				hc.between = []string{"none", "arrive", "sitout", "rebuy", "leave-busted", "leave-live"}
+				hc.between = []string{"none", "arrive", "sitout", "rebuy", "addon-busted", "leave-busted", "leave-live"}
 				hc.mid = []string{"none", "arrive", "rebuy-part", "leave-sitout"}
 				hc.between2 = true
 			}
@@ -121,11 +121,25 @@ func init() {
 			}
 			cfgs := layoutConfigs(tier, hands, []pt.TableBlindState{blindStd()})
 			for _, hc := range cfgs {
-				hc.between = []string{"none", "arrive", "sitout", "join-sitout", "rebuy", "leave-busted", "leave-live", "blind-break"}
+				hc.between = []string{"none", "arrive", "sitout", "join-sitout", "rebuy", "addon-busted", "leave-busted", "leave-live", "blind-break"}
 				hc.mid = []string{"none", "arrive", "sitout"}
 				hc.late = []string{"none", "arrive", "join-sitout", "leave-live", "rebuy"}
 				hc.retry = []string{"none", "join-sitout", "arrive", "rebuy"}
 				hc.finish = []string{"all", "none", "first"}
+			}
+			// MTT tables carry a playing-time limit in their meta data that does not apply to them: the table must
+			// deal on after it has elapsed (virtual time passes it during hand 2)
+			for _, n := range []int{2, 3} {
+				tc := defaultCfg(4)
+				tc.Mode = pt.CompetitionMode_MTT
+				tc.MaxDuration = 4
+				var init []seatSpec
+				for i, id := range []string{"a", "b", "c"}[:n] {
+					init = append(init, seatSpec{id: id, seat: i, chips: 9, joined: true})
+				}
+				cfgs = append(cfgs, &histCfg{name: fmt.Sprintf("mtt-with-time-limit-4s/n%d", n), tcfg: tc, init: init, hands: hands,
+					lines: []string{"foldout", "checkdown"}, decks: []string{"asc"}, newStack: 5,
+					between: []string{"none", "arrive", "rebuy"}, finish: []string{"all", "none", "first"}})
 			}
 			ss := append(histSuites("c08/", cfgs, bound, func(h *hist) []Monitor { return []Monitor{newMonC08(h, 1)} }), c08SchedSuites(tier)...)
 			return append(ss, raceSuites("c08/", tier, false, func(h *hist) []Monitor { return []Monitor{newMonC08(h, 1)} })...)
